@@ -26,7 +26,7 @@ Record c18_case := { c18_graph : c12_case; c18_names : list name_obs }.
 
 Definition chk_outcome (c : c12_case) : bool :=
   let pr := c12_prog c in let a := c12_ana c in
-  match analyse_closure pr (model_enums pr) (fetch_unions pr) (c12_source c) (fuel_for pr a), ao_outcome a with
+  match analyse_closure pr (model_enums pr) (fetch_unions pr) (c12_source c) (fuel_for pr (c12_source c)), ao_outcome a with
   | Ok _, OutOk => true
   | Diag _, OutDiag _ => true
   | Ok _, OutDiag m => String.prefix "unknown special comment" m   (* comment kinds are not part of this model *)
